@@ -163,6 +163,8 @@ public:
 #ifdef VM_GRANT_DENY
   // 0: refuse (success = false, pointer handed back unchanged); 1: accept
   static inline int grant_mode = 0;
+  static inline std::vector<std::pair<uintptr_t, size_t>> grant_log;
+  static inline uintptr_t grant_window = 512;
   static inline int deny_mode = 0;
 #endif
   // harness knob: called at the start of every same-sandbox (range) check, i.e. at a moment
@@ -443,9 +445,15 @@ protected:
 
 #ifdef VM_GRANT_DENY
   template<typename T>
-  inline T* impl_grant_access(T* src, size_t, bool& success)
+  inline T* impl_grant_access(T* src, size_t num, bool& success)
   {
-    success = grant_mode == 1;
+    // every request that reaches the backend is recorded: the range is exposed from here on
+    grant_log.push_back({ reinterpret_cast<uintptr_t>(src), num * sizeof(T) });
+    success = grant_mode != 0;
+    if (grant_mode == 2) {
+      // a backend that maps the buffer into its region: the sandbox sees it at this window
+      return reinterpret_cast<T*>(base + grant_window);
+    }
     return src;
   }
   template<typename T>
